@@ -40,7 +40,13 @@ var vc15Pred = []string{
 	"for x in [1, 2, 3] {\n a2 = x\n if x == 2 { break }\n continue\n}\nadd_key(k_leak, a2)\n",
 	// 7 cancelled by its signal inside nested loops (run with vc15Cancel)
 	"a2 = \"leak\"\nfor i = 0; ; i += 1 {\n for x in [1, 2] {\n  undefined_var = x\n  set_tag(t_leak, \"v\")\n }\n}\nadd_key(after_cancel, 1)\n",
+	// 8 run-time error inside a called script (two pooled tasks in use, both returned on the error path)
+	"a2 = \"leak\"\nundefined_var = 1\nuse(\"lib.p\")\nfor x in [1] {\n use(\"lib2.p\")\n}\n",
 }
+
+// library scripts loaded together with every operation (targets of use())
+const vc15Lib = "lv = undefined_var\nif lv == nil {\n add_key(lib_saw_nil, true)\n}\nadd_key(from_lib, a2)\na2 = \"lib\"\nadd_key(lib_len, len(\"xyz\"))\n"
+const vc15Lib2 = "z = 0\nfor x in [1, 2] {\n set_tag(t_leak, \"lib2\")\n q = 1 / z\n}\n"
 
 // vc15Cancel: a cancellation signal that fires on the n-th poll.
 type vc15Cancel struct{ n int }
@@ -66,6 +72,8 @@ var vc15Succ = []string{
 	"r = set_tag(t1, \"v\")\nadd_key(r_is, r)\nq = len(\"abcd\")\nadd_key(q_is, q)\nr2 = drop_key(nothing)\nif r2 == nil { add_key(r2_nil, true) }\n",
 	// 5 syntax error
 	"add_key(x, 1)\nadd_key(y, \n",
+	// 6 calls another script twice (nested pooled tasks)
+	"a2 = \"outer\"\nuse(\"lib.p\")\nadd_key(outer_a2, a2)\nfor x in [1, 2] {\n use(\"lib.p\")\n}\nadd_key(k_leak)\n",
 }
 
 // vc15Point: the input point; `a` is any int64, `f` any non-NaN float64.
@@ -94,7 +102,7 @@ type vc15Result struct {
 }
 
 func vc15Load(name, src string) (*runtime.Script, error) {
-	ok, errs := engine.ParseScript(map[string]string{name: src}, FuncsMap, FuncsCheckMap)
+	ok, errs := engine.ParseScript(map[string]string{name: src, "lib.p": vc15Lib, "lib2.p": vc15Lib2}, FuncsMap, FuncsCheckMap)
 	if s, has := ok[name]; has {
 		return s, nil
 	}
